@@ -25,11 +25,11 @@ def decodeNode (enc : Bytes) : Option TrieCodec.Node :=
   | .ok n => some n
   | _ => none
 
-def kidsOfList (l : List (Option Addr)) : Nib → Option Addr := fun i => (l[i.val]?).getD none
+def kidsOfList (l : List (Option Nat)) : Nib → Option Nat := fun i => (l[i.val]?).getD none
 
 /-- put a decoded node (with its inlined descendants) into fresh cells, as `node.Decode` builds it:
     generation 0, clean, no Merkle value; a child known by its hash is `&Node{MerkleValue: hash}` -/
-def allocDecoded : Nat → Heap → TrieCodec.Node → Heap × Option Addr
+def allocDecoded : Nat → Heap → TrieCodec.Node → Heap × Option Nat
   | 0, hp, _ => (hp, none)
   | _ + 1, hp, .empty => (hp, none)
   | _ + 1, hp, .stub mv =>
@@ -39,7 +39,7 @@ def allocDecoded : Nat → Heap → TrieCodec.Node → Heap × Option Addr
     let r := hp.alloc { (default : HNode) with pk := pk.map toNib, val := v, ihv := hashed }
     (r.1, some r.2)
   | f + 1, hp, .branch pk v hashed kids =>
-    let ks := kids.foldl (fun (acc : Heap × List (Option Addr)) c =>
+    let ks := kids.foldl (fun (acc : Heap × List (Option Nat)) c =>
       let x := allocDecoded f acc.1 c
       (x.1, acc.2 ++ [x.2])) (hp, [])
     let r := ks.1.alloc { (default : HNode) with pk := pk.map toNib, val := v, ihv := hashed,
@@ -47,7 +47,7 @@ def allocDecoded : Nat → Heap → TrieCodec.Node → Heap × Option Addr
     (r.1, some r.2)
 
 /-- `loadStorageValue(db, node)` -/
-def loadStorageValue (hp : Heap) (db : DB) (a : Addr) : Option Heap :=
+def loadStorageValue (hp : Heap) (db : DB) (a : Nat) : Option Heap :=
   let n := hp.get a
   if !n.ihv then some hp
   else
@@ -56,7 +56,7 @@ def loadStorageValue (hp : Heap) (db : DB) (a : Addr) : Option Heap :=
     | some raw => some (hp.modify a (fun x => { x with ihv := false, mbh := true, val := some raw }))
 
 /-- one iteration of the children loop of `loadNode` on the branch at `a` -/
-def loadKid (H : Bytes → Bytes) (db : DB) (a : Addr) (rec : Heap → Addr → Option Heap)
+def loadKid (H : Bytes → Bytes) (db : DB) (a : Nat) (rec : Heap → Nat → Option Heap)
     (acc : Option Heap) (i : Nib) : Option Heap :=
   match acc with
   | none => none
@@ -84,7 +84,7 @@ def loadKid (H : Bytes → Bytes) (db : DB) (a : Addr) (rec : Heap → Addr → 
                 rec hp4 d
 
 /-- `t.loadNode(db, n)` -/
-def loadNodeF (H : Bytes → Bytes) (db : DB) : Nat → Heap → Addr → Option Heap
+def loadNodeF (H : Bytes → Bytes) (db : DB) : Nat → Heap → Nat → Option Heap
   | 0, _, _ => none
   | f + 1, hp, a =>
     if !(hp.get a).isBranch then some hp
@@ -115,7 +115,7 @@ def bytesToHash (b : Bytes) : Bytes :=
 
 /-- byte keys of the trie that have the byte prefix `p`, in trie order (`GetKeysWithPrefix`; the
     prefix used here does not end in a zero nibble, so no trimming applies) -/
-def keysWithBytePrefix (hp : Heap) (root : Option Addr) (p : Bytes) : List Bytes :=
+def keysWithBytePrefix (hp : Heap) (root : Option Nat) (p : Bytes) : List Bytes :=
   ((keysF bigFuel hp root []).map nibblesToKeyLE).filter (fun k => p.isPrefixOf k)
 
 /-- `t.Load(db, rootHash)` on a fresh trie: the heap with the loaded nodes and the loaded trie.
